@@ -377,13 +377,16 @@ def run(ctx):
     ctx.assumptions = [
         "closures (matmul_closure, preconditioner) are pure functions returning fresh tensors, linear where a theorem says so; "
         "closures that return their argument are exercised by the correspondence only (known findings)",
-        "MINRES convergence to the shifted solutions (Paige-Saunders) and the accuracy of the elliptic quadrature are NOT proved "
-        "(DESIGN section 6): they enter the CIQ theorems as explicit hypotheses and are checked numerically on the implementation (support only)",
+        "Paige-Saunders is proved in exact arithmetic only as far as: orthonormal Lanczos vectors, residual norm = scale term, minimal "
+        "residual over the Krylov space (symmetric matrix, no preconditioner, no Lanczos breakdown during the first k bodies, hence k < n) "
+        "and the exact-breakdown step; that this minimal residual is SMALL (convergence of the iterates to the shifted solutions) and the "
+        "accuracy of the elliptic quadrature are NOT proved (DESIGN section 6): exact solves and the scalar rule enter the CIQ theorems as "
+        "explicit hypotheses and are checked numerically on the implementation (support only)",
         "float64 trajectories are compared with the model only within the policy of DESIGN 2.4 (<= 6 loop bodies on every family, "
         "<= 8 for kappa <= 1e2, whole runs for kappa <= 10 or <= 4 distinct eigenvalues)"]
 
 
-def run_shards_limited(ctx, shards, workers=5, timeout=900):
+def run_shards_limited(ctx, shards, workers=3, timeout=900):
     """like common.run_shards but with at most `workers` coqc processes (shared machine)"""
     from concurrent.futures import ThreadPoolExecutor
     paths = []
